@@ -106,6 +106,8 @@ type checkRun struct {
 	samples  []interface{}
 	assumptions map[string]bool
 	undecided []string
+	registry map[string]bool
+	allNames []string
 }
 
 func slug(s string) string {
@@ -232,6 +234,7 @@ func (cr *checkRun) runUnit(full string) {
 		}
 		ue.Obligations++
 		cr.nObl++
+		cr.allNames = append(cr.allNames, o.Name)
 		cr.solverTime += o.Res.Time
 		slows = append(slows, slow{o.Name, o.Res.Time})
 		if o.OK() {
@@ -256,7 +259,39 @@ func (cr *checkRun) runUnit(full string) {
 	cr.units = append(cr.units, ue)
 }
 
+func loadRegistry(id string) map[string]bool {
+	b, err := os.ReadFile(filepath.Join(verifDir, "registry", id+".json"))
+	if err != nil {
+		return nil
+	}
+	var r struct {
+		Obligations []string `json:"obligations"`
+	}
+	json.Unmarshal(b, &r)
+	m := map[string]bool{}
+	for _, o := range r.Obligations {
+		m[o] = true
+	}
+	return m
+}
+
 func (cr *checkRun) handleFailure(full string, rep *FuncReport, o *Oblig) {
+	if cr.registry == nil {
+		cr.registry = loadRegistry(cr.prop.ID)
+		if cr.registry == nil {
+			cr.registry = map[string]bool{"$none": true}
+		}
+	}
+	if !cr.registry["$none"] && !cr.registry[o.Name] {
+		// an obligation produced by changed code that is not part of the claimed set: a violation only if it replays
+		rp := replayObligation(cr, full, o)
+		if !rp.reproduced {
+			cr.undecided = append(cr.undecided, o.Name+" ("+o.Res.Status+"; not in the claimed registry, no reproducing input)")
+			return
+		}
+		cr.viol = append(cr.viol, violation{Obligation: o.Name, Kind: o.Kind, Unit: full, Detail: o.Res.Status, Replay: rp.path, Reproduced: true, Input: rp.input})
+		return
+	}
 	v := violation{Obligation: o.Name, Kind: o.Kind, Unit: full, Detail: fmt.Sprintf("%s (%s)", o.Res.Status, strings.Join(o.Res.Tried, " "))}
 	rp := replayObligation(cr, full, o)
 	v.Replay = rp.path
@@ -369,6 +404,12 @@ func (cr *checkRun) finish() int {
 		fmt.Println(line)
 	}
 	cr.writeEvidence(exit)
+	if exit == 0 && os.Getenv("GOVC_WRITE_REGISTRY") != "" {
+		sort.Strings(cr.allNames)
+		b, _ := json.MarshalIndent(map[string]interface{}{"property": p.ID, "obligations": cr.allNames}, "", " ")
+		os.MkdirAll(filepath.Join(verifDir, "registry"), 0o755)
+		os.WriteFile(filepath.Join(verifDir, "registry", p.ID+".json"), b, 0o644)
+	}
 	if exit == 0 {
 		fmt.Printf("OK property=%s tier=%s: %d/%d obligations discharged", p.ID, cr.tier, cr.nOK, cr.nObl)
 		for _, b := range cr.bounded {
@@ -428,6 +469,7 @@ func (cr *checkRun) writeEvidence(exit int) {
 		"samples":                  cr.samples,
 		"callee_contracts":         assumed,
 		"known_findings":           cr.known,
+		"undecided_new_obligations": cr.undecided,
 	}
 	if len(cr.bounded) > 0 {
 		var bs []map[string]interface{}
